@@ -205,6 +205,20 @@ Undocumented(p, t, base)  == PatInfo(p, base).undoc \/ PathInfo(t, base).undoc
 RootPattern(p, base)      == PatInfo(p, base).pc = <<Sep>>
 
 (***************************************************************************)
+(* Windows syntax ("case insensitive, forward and backward slashes"): the   *)
+(* rules above applied to the strings with every backslash read as the      *)
+(* separator and every letter in lower case.  Roots other than a single     *)
+(* leading separator (drive letters, UNC) are not modelled: PathMatchMC     *)
+(* does not judge strings that start with a backslash, and its alphabets    *)
+(* contain no ':'.                                                          *)
+(***************************************************************************)
+UpperCase == <<"A","B","C","D","E","F","G","H","I","J","K","L","M","N","O","P","Q","R","S","T","U","V","W","X","Y","Z">>
+LowerCase == <<"a","b","c","d","e","f","g","h","i","j","k","l","m","n","o","p","q","r","s","t","u","v","w","x","y","z">>
+Lower(c) == IF \E i \in DOMAIN UpperCase : UpperCase[i] = c THEN LowerCase[CHOOSE i \in DOMAIN UpperCase : UpperCase[i] = c] ELSE c
+LowerStr(s) == [i \in DOMAIN s |-> Lower(s[i])]
+WinNorm(s) == [i \in DOMAIN s |-> IF s[i] = "\\" THEN Sep ELSE Lower(s[i])]
+
+(***************************************************************************)
 (* Laws of the definition (checked by TLC in PathMatchMC for all strings up *)
 (* to a bound); they guard against a wrong specification.                   *)
 (***************************************************************************)
